@@ -5,5 +5,7 @@ TECHNIQUE = {
     'C01': 'static sibling cross-check: abstract interpretation of encoder/decoder pairs to struct formats, affine size forms and position/padding identities',
     'C05': 'static termination proof: per-loop progress by lower-bound fixpoint over decoder size terms, recursion measure over the decode call graph SCCs, bounded-read and guard-dominance checks',
     'C08': 'static handler-invariant check: path enumeration of the pending-table handlers (register-before-send, completion implies removal and timer cancel, correlation keys, error types)',
+    'C06': 'typestate analysis: finite transition system extracted from BusAuthenticator by abstract interpretation, explored exhaustively and compared with the specification\'s server table; path rules for line-mode limits and mechanism acceptance',
+    'C20': 'static ordering/FIFO rules: path enumeration of sender, receiver-queue and header-construction functions',
     'C02': 'static conformance check of the extracted codec model against specification tables; padding function interpreted in the congruence domain mod 8',
 }
